@@ -130,6 +130,7 @@ type symObs struct {
 	sidI, sidR   [64]byte // ConnData.SID() of either side after the handshake
 	sidOK        bool
 	remRafter    []byte // the responder's stored remote key after the handshake, whatever its outcome
+	authRafter   []byte // the responder's own auth payload as its ConnData holds it after the handshake
 }
 
 func applyTamper(specs []string) func(from, idx int, msg []byte) []byte {
@@ -180,7 +181,11 @@ func runSym(r *rng, c symCfg, keys [5]*btcec.PrivateKey) symObs {
 	if c.refuseStatic {
 		onStatic = func(*btcec.PublicKey) error { return fmt.Errorf("application refuses this client key") }
 	}
-	cdR := mailbox.NewConnData(keyECDH(keys[1]), remR, c.pwR, c.payload, onStatic, nil)
+	// the responder's auth payload lives in a slice with spare capacity (as one built with append has): the
+	// handshake must not write into the application's data
+	stored := make([]byte, len(c.payload), len(c.payload)+64)
+	copy(stored, c.payload)
+	cdR := mailbox.NewConnData(keyECDH(keys[1]), remR, c.pwR, stored, onStatic, nil)
 	fixed := func(k *btcec.PrivateKey) func() (*btcec.PrivateKey, error) {
 		return func() (*btcec.PrivateKey, error) { return k, nil }
 	}
@@ -242,6 +247,7 @@ func runSym(r *rng, c symCfg, keys [5]*btcec.PrivateKey) symObs {
 			o.remR = k.SerializeCompressed()
 		}
 	}
+	o.authRafter = append([]byte{}, cdR.AuthData()...)
 	return o
 }
 
@@ -332,6 +338,11 @@ func TestGenSym(t *testing.T) {
 				})
 			}
 		}
+		// C04: the responder still holds the auth payload it was configured with (the next handshake sends it again)
+		q.check(bytes.Equal(ob.authRafter, c.payload), "c04:responder-auth-payload-altered:"+class, func() string {
+			return desc() + fmt.Sprintf("; the responder's ConnData now holds %x.. (%d bytes), it was configured with %x.. (%d bytes)",
+				ob.authRafter[:min(8, len(ob.authRafter))], len(ob.authRafter), c.payload[:min(8, len(c.payload))], len(c.payload))
+		})
 		if c.refuseStatic {
 			// C11: a client the application refused must not move the server to a new rendezvous
 			q.check(len(ob.remRafter) == 0, "c11:refused-client-key-stored:"+class, func() string {
